@@ -342,7 +342,7 @@ def tasks(tier, seed):
     ts = [(verify, (misc.INSERT_ONCE, "heavy", "Operations.one_knot_insert_once", None)),
           (verify, (kv.ADD, "heavy", "ImmutableKnotVector.__add__", None))]
     # shape-level contracts (all curves, all node lists): npts + len(nodes), same degree, INV, refusals atomic, callers meet apply's precondition
-    ts += [(verify, (c, m, q, v)) for c, m, q, v in curvesv.ALL if q in ("Curve.knot_insert", "BaseCurve.apply")]
+    ts += curvesv.tasks_for(("Curve.knot_insert", "BaseCurve.apply"))
     for sh in tier_shapes(tier):
         ts.append((task_matrix, (sh, tier)))
         ts.append((task_curve, (sh, False, tier)))
